@@ -61,10 +61,19 @@ def order (P : LProg) : List Nat := (List.range P.size).reverse
 
 def liveness (P : LProg) (fuel : Nat) : LState × Bool := iter P (order P) fuel (initState P)
 
-/-- A fuel that always suffices: every noisy sweep adds at least one of the
-finitely many (instruction, in/out, register, lane) facts. -/
-def fuelBound (P : LProg) : Nat :=
-  let regs := (P.toList.flatMap (fun I => I.uses ++ I.defs)).map (·.id) |>.eraseDups
-  2 * P.size * regs.length * 16 + 2
+/-- Lanes read somewhere in the program. -/
+def useLocs (P : LProg) : List (Nat × Nat) :=
+  P.toList.flatMap (fun I => I.uses.flatMap (fun r => ((List.range (r.mask + 1)).filter (fun l => r.mask.testBit l)).map (fun l => (r.id, l))))
+
+/-- (instruction, is-out, register id, lane) -/
+abbrev Fact := Nat × Bool × Nat × Nat
+
+/-- The finite universe of facts the analysis can ever establish. -/
+def factUniverse (P : LProg) : List Fact :=
+  (List.range P.size).flatMap (fun i => [true, false].flatMap (fun b => (useLocs P).map (fun p => (i, b, p.1, p.2))))
+
+/-- A fuel that always suffices (theorem `liveness_terminates`): every noisy
+sweep adds at least one fact of the finite universe. -/
+def fuelBound (P : LProg) : Nat := (factUniverse P).length + 1
 
 end Avo.Live
